@@ -416,7 +416,7 @@ func (t *tr) load(u *unit, imp types.Importer) {
 	}
 	for _, e := range entries {
 		n := e.Name()
-		if !strings.HasSuffix(n, ".go") || strings.HasSuffix(n, "_test.go") || strings.Contains(n, "_verif") {
+		if !strings.HasSuffix(n, ".go") || strings.HasSuffix(n, "_test.go") || strings.HasSuffix(n, "_verif.go") {
 			continue
 		}
 		f, err := parser.ParseFile(t.fset, filepath.Join(u.dir, n), nil, parser.SkipObjectResolution)
